@@ -127,8 +127,9 @@ structure Txn where
   locked : Bool := false
   /-- (ghost) log length when the creating call was invoked -/
   invLen : Nat := 0
-  /-- (ghost) transactions whose committing call had returned when the creating call was invoked -/
-  before : List Tid := []
+  /-- (ghost) (transaction, end position in the log) of every commit whose call had returned when
+      the creating call was invoked -/
+  before : List (Tid × Nat) := []
   /-- (ghost) the session whose startTransaction created it -/
   sessOf : Option SessId := none
   deriving Repr, Inhabited
@@ -176,9 +177,9 @@ structure Local where
   crit : CritKind := .read
   /-- (ghost) log length / returned transactions at invocation of the current call -/
   invLen : Nat := 0
-  invDone : List Tid := []
-  /-- (ghost) transaction committed by the current call -/
-  cmt : Option Tid := none
+  invDone : List (Tid × Nat) := []
+  /-- (ghost) transaction committed by the current call and the log position where its ops end -/
+  cmt : Option (Tid × Nat) := none
   /-- (ghost) snapshot observed by the current read-only call -/
   obs : Option (List OpId) := none
   deriving Repr, Inhabited
@@ -190,8 +191,8 @@ structure CRec where
   ops : List OpId
   /-- log length at invocation of the call that began the transaction -/
   invLen : Nat := 0
-  /-- transactions whose committing call had returned before that invocation -/
-  before : List Tid := []
+  /-- (transaction, log end position) of commits whose call had returned before that invocation -/
+  before : List (Tid × Nat) := []
   deriving Repr, DecidableEq
 
 /-- (ghost) a write performed by a callback: it ran on log `seen` and produced `op` -/
@@ -217,7 +218,7 @@ structure State where
   txns : Tid → Txn := fun _ => {}
   commitLog : List CRec := []
   hist : List HEntry := []
-  done : List Tid := []
+  done : List (Tid × Nat) := []
   reads : List RRec := []
 
 /-- initial state: `n` idle clients (1..n), actor 0 is the expiry goroutine parked at its select -/
@@ -338,7 +339,7 @@ def stepCommit (s : State) (a : ActorId) (l : Local) (c : Choice) : Option State
           let e1 := { e with txn := none, holder := some a }
           if (s.txns t).ops = [] then
             -- !txn.Dirty(): return nil  (deferred release, deferred unlock)
-            some { s.put a { l.back .ok with cmt := some t } e1.release.unlock with
+            some { s.put a { l.back .ok with cmt := some (t, e.catalog.length) } e1.release.unlock with
                    commitLog := s.commitLog ++
                      [{ tid := t, base := (s.txns t).base, ops := [], invLen := (s.txns t).invLen, before := (s.txns t).before }] }
           else some (s.put a { l with pc := .cStore } e1)
@@ -351,7 +352,7 @@ def stepCommit (s : State) (a : ActorId) (l : Local) (c : Choice) : Option State
       | .storeOk =>
         -- Clean; Store ok; e.catalog = txn.Catalog(); broadcast; deferred release + unlock
         let cat := tx.base ++ tx.ops
-        some { s.put a { l.back .ok with cmt := some t }
+        some { s.put a { l.back .ok with cmt := some (t, cat.length) }
                       { e with catalog := cat, durable := cat }.release.unlock with
                commitLog := s.commitLog ++
                  [{ tid := t, base := tx.base, ops := tx.ops, invLen := tx.invLen, before := tx.before }] }
